@@ -101,7 +101,7 @@ theorem signBitMask_width (w : Nat) : (Tools.signBitMask w).width = w := by
   · rfl
 
 theorem wf_bitMask {bits w : Nat} (h : WOK w) : (Tools.bitMask bits w).wf = true := by
-  unfold Tools.bitMask
+  unfold Tools.bitMask Tools.bitMaskRaw
   split
   · exact wf_constUint _ w h
   · exact wf_sub (wf_bin _ wf_one' (wf_constUint _ 2 (by decide)) h) wf_one' h
